@@ -20,24 +20,24 @@ Record rule := mkRule {
 (* [tr] lets a caller transform the condition before it is evaluated (the
    identity for the documented meaning; Quirks.prefold for the model of the
    compiler's constant folding) *)
-Definition rule_env (data : list Z) (globals : list value) (fast : bool)
+Definition rule_env (data : list Z) (globals : list value)
                     (verdicts : list bool) (r : rule) : env :=
   let ms := map (fun p => find_all p data) (r_pats r) in
   mkEnv data (Z.of_nat (length data)) (fun i => nth i ms []) [] None
-        (fun j => nth j verdicts false) (fun g => nth g globals VUndef) fast.
+        (fun j => nth j verdicts false) (fun g => nth g globals VUndef).
 
 (* condition values of the rules, in order, each seeing the earlier ones *)
-Fixpoint verdicts_from (tr : expr -> expr) (data : list Z) (globals : list value) (fast : bool)
+Fixpoint verdicts_from (tr : expr -> expr) (data : list Z) (globals : list value)
                        (rules : list rule) (acc : list bool) : list bool :=
   match rules with
   | [] => acc
   | r :: t =>
-      verdicts_from tr data globals fast t
-        (acc ++ [holds (rule_env data globals fast acc r) (tr (r_cond r))])
+      verdicts_from tr data globals t
+        (acc ++ [holds (rule_env data globals acc r) (tr (r_cond r))])
   end.
 
-Definition verdicts tr data globals fast rules : list bool :=
-  verdicts_from tr data globals fast rules [].
+Definition verdicts tr data globals rules : list bool :=
+  verdicts_from tr data globals rules [].
 
 (* all global rules of namespace ns are satisfied *)
 Definition ns_ok (rules : list rule) (vs : list bool) (ns : nat) : bool :=
@@ -56,11 +56,11 @@ Definition is_private (rules : list rule) (i : nat) : bool :=
 Definition reported_of (rules : list rule) (vs : list bool) : list nat :=
   filter (fun i => negb (is_private rules i)) (matching_of rules vs).
 
-Definition run (tr : expr -> expr) (data : list Z) (globals : list value) (fast : bool)
+Definition run (tr : expr -> expr) (data : list Z) (globals : list value)
                (rules : list rule) : list nat * list nat :=
-  let vs := verdicts tr data globals fast rules in
+  let vs := verdicts tr data globals rules in
   (matching_of rules vs, reported_of rules vs).
 
 (* the documented meaning *)
 Definition eval_ruleset (data : list Z) (globals : list value) (rules : list rule) : list nat * list nat :=
-  run (fun e => e) data globals false rules.
+  run (fun e => e) data globals rules.
